@@ -415,13 +415,137 @@ def _unit_tail(n):
     return out
 
 
+def _assigns_local(n, lid):
+    if isinstance(n, list):
+        return any(_assigns_local(x, lid) for x in n)
+    if not isinstance(n, dict):
+        return False
+    if n.get('k') in ('assign', 'assignop'):
+        l = n.get('l')
+        if isinstance(l, dict) and l.get('k') == 'path' and l.get('res') == 'local' and l.get('id') == lid:
+            return True
+    if n.get('k') == 'addrof' and n.get('mut') and isinstance(n.get('x'), dict) and n['x'].get('k') == 'path' and n['x'].get('id') == lid:
+        return True
+    return any(_assigns_local(v, lid) for v in n.values() if isinstance(v, (dict, list)))
+
+
+def _jumps(n):
+    """break / continue that would leave or restart THIS loop body (those inside nested loops belong to them)"""
+    if isinstance(n, list):
+        return any(_jumps(x) for x in n)
+    if not isinstance(n, dict):
+        return False
+    if n.get('k') in ('break', 'continue', 'ret'):
+        return True
+    if n.get('k') in ('loop', 'steploop') or (n.get('k') == 'match' and n.get('source') == 'ForLoopDesugar'):
+        return False
+    return any(_jumps(v) for v in n.values() if isinstance(v, (dict, list)))
+
+
+def _lit(i):
+    return {'k': 'lit', 'int': i, 'ty': 'usize'}
+
+
+def loopnorm(n):
+    """counted loops in one shape: `let mut r = A; while r < B { BODY; r += S; }`, `for r in (A..B).step_by(S) { BODY }` and
+    `for r in A..B { BODY }` all become steploop(var, A, B, S, BODY) (BODY must not assign r, `continue` or `break`)"""
+    from .core import for_loop_parts, is_range_struct, strip_refs
+    if isinstance(n, list):
+        return [loopnorm(x) for x in n]
+    if not isinstance(n, dict):
+        return n
+    fl = for_loop_parts(n)
+    if fl:
+        pat, it, body = fl
+        it0 = strip_refs(it)
+        step = _lit(1)
+        rg = is_range_struct(it0)
+        if rg is None and it0.get('k') == 'mcall' and it0.get('name') == 'step_by' and len(it0.get('args', [])) == 1:
+            rg = is_range_struct(it0['recv'])
+            step = it0['args'][0]
+        if rg is not None and rg[0] is not None and rg[1] is not None and not rg[2] and pat.get('k') == 'bind' and not _jumps(body):
+            return {'k': 'steploop', 'ty': '()', 'var': {'k': 'bind', 'id': pat['id']}, 'a': loopnorm(rg[0]), 'b': loopnorm(rg[1]), 's': loopnorm(step), 'body': loopnorm(body)}
+    out = {k: (loopnorm(v) if isinstance(v, (dict, list)) else v) for k, v in n.items()}
+    if out.get('k') == 'block':
+        st = list(out.get('stmts', []))
+        if isinstance(out.get('tail'), dict) and out['tail'].get('k') == 'loop' and out['tail'].get('source') == 'While':
+            # a while loop in tail position is a statement like any other
+            st.append({'k': 'expr', 'e': out['tail']})
+            out['tail'] = None
+        new = []
+        i = 0
+        while i < len(st):
+            s0 = st[i]
+            s1 = st[i + 1] if i + 1 < len(st) else None
+            done = False
+            if s0.get('k') == 'let' and s0.get('pat', {}).get('k') == 'bind' and 'init' in s0 and 'else' not in s0 and s1 is not None and s1.get('k') == 'expr':
+                lp = s1['e']
+                rid = s0['pat']['id']
+                if isinstance(lp, dict) and lp.get('k') == 'loop' and lp.get('source') == 'While':
+                    b = lp['body']
+                    iff = b.get('tail') if not b.get('stmts') else None
+                    if iff is None and len(b.get('stmts', [])) == 1 and b['stmts'][0].get('k') == 'expr':
+                        iff = b['stmts'][0]['e']
+                    if isinstance(iff, dict) and iff.get('k') == 'if':
+                        c = iff['cond']
+                        th = iff['then']
+                        if c.get('k') == 'bin' and c.get('op') == '<' and c['l'].get('k') == 'path' and c['l'].get('id') == rid and th.get('k') == 'block':
+                            bs = list(th.get('stmts', []))
+                            if th.get('tail') is not None:
+                                bs.append({'k': 'expr', 'e': th['tail']})
+                            last = bs[-1]['e'] if bs and bs[-1].get('k') == 'expr' else None
+                            if isinstance(last, dict) and last.get('k') == 'assignop' and last.get('op') == '+=' and last['l'].get('id') == rid:
+                                body = {'k': 'block', 'stmts': bs[:-1], 'tail': None}
+                                later = st[i + 2:] + ([out.get('tail')] if out.get('tail') is not None else [])
+                                used_later = _has_local(later, rid)
+                                if not _assigns_local(body, rid) and not _jumps(body) and not used_later and not _has_local(c['r'], rid):
+                                    new.append({'k': 'expr', 'e': {'k': 'steploop', 'ty': '()', 'var': {'k': 'bind', 'id': rid}, 'a': s0['init'], 'b': c['r'], 's': last['r'], 'body': body}})
+                                    i += 2
+                                    done = True
+            if not done:
+                new.append(s0)
+                i += 1
+        out['stmts'] = new
+    return out
+
+
+def _has_local(n, lid):
+    if isinstance(n, list):
+        return any(_has_local(x, lid) for x in n)
+    if not isinstance(n, dict):
+        return False
+    if n.get('k') == 'path' and n.get('res') == 'local' and n.get('id') == lid:
+        return True
+    return any(_has_local(v, lid) for v in n.values() if isinstance(v, (dict, list)))
+
+
+def _drop_debug_asserts(n):
+    """statements that come from a macro expansion and neither assign nor call a crate function (debug_assert!) say nothing
+    about the schedule"""
+    if isinstance(n, list):
+        return [_drop_debug_asserts(x) for x in n]
+    if not isinstance(n, dict):
+        return n
+    out = {k: (_drop_debug_asserts(v) if isinstance(v, (dict, list)) else v) for k, v in n.items()}
+    if out.get('k') == 'block':
+        keep = []
+        for s_ in out.get('stmts', []):
+            e = s_.get('e') if s_.get('k') == 'expr' else None
+            if isinstance(e, dict) and e.get('k') == 'if' and isinstance(e.get('cond'), dict) and e['cond'].get('k') == 'lit' and 'bool' in json.dumps(e['cond'].get('ty', '')) \
+                    and not _has(e, ('assign', 'assignop', 'mcall')):
+                continue
+            keep.append(s_)
+        out['stmts'] = keep
+    return out
+
+
 def inlined_form(facts, adt, entries):
     nf = NF(facts, adt)
     ex = Expander(facts, adt)
     forms = []
     nf.locals = {}
     for name, f in entries:
-        tree = _unit_tail(ex.expand_fn(f))
+        tree = _unit_tail(loopnorm(_drop_debug_asserts(ex.expand_fn(f))))
         nf.locals = {}
         forms.append((name, nf.node(tree)))
     return forms, ex.inlined
@@ -580,6 +704,33 @@ def trace_ptr(facts, body, c, depth=0):
             return trace_ptr(facts, body, c[2][0], depth + 1)
         if t and re.search(r'(<impl \[T; N\]>|<impl \[T\]>)::as_(mut_)?ptr$', t['callee'].get('path') or ''):
             recv = c[2][0]
+            # receiver is one half of `x.split_at(K)` / `split_at_mut(K)` of a sized array: K resp. N - K elements
+            r0 = recv
+            while isinstance(r0, tuple) and r0 and r0[0] in ('ref', 'deref', 'cast'):
+                r0 = r0[2] if r0[0] == 'cast' else r0[1]
+            if isinstance(r0, tuple) and r0 and r0[0] == 'field' and isinstance(r0[1], tuple) and r0[1] and r0[1][0] == 'call' \
+                    and re.search(r'<impl \[[^\]]*\]>::split_at(_mut)?$', r0[1][1]) and r0[2] in ('0', '1') and len(r0[1]) > 3:
+                st_ = body.term(r0[1][3])
+                k = fold(r0[1][2][1])
+                spl = op_place(st_['args'][0])
+                sty = body.local_ty(spl['l']) if spl else ''
+                if spl and re.match(r'^&(mut )?\[[^;\]]*\]$', sty):
+                    for d in body.defs().get(spl['l'], []):
+                        if d[0] == 'stmt':
+                            st2 = body.blocks[d[1]]['stmts'][d[2]]
+                            if st2['k'] == 'assign' and st2['rv']['k'] == 'cast' and 'Unsize' in st2['rv'].get('cast', ''):
+                                sp2 = op_place(st2['rv']['op'])
+                                if sp2 is not None:
+                                    sty = body.local_ty(sp2['l'])
+                sty = re.sub(r'^&(mut )?', '', sty)
+                m2 = re.match(r'^\[(.*); (\d+)\]$', sty)
+                if m2 and k[0] == 'const':
+                    es = sizeof(facts, m2.group(1))
+                    n_el = int(m2.group(2))
+                    if es is not None and 0 <= k[1] <= n_el:
+                        part = k[1] if r0[2] == '0' else n_el - k[1]
+                        return (part * es, 0, '%s.split_at(%d).%s.as_ptr()' % (sty, k[1], r0[2]))
+                return (None, 'as_ptr() on a half of split_at with unknown bounds (%s, %s)' % (sty, core.show(k)))
             # receiver type: the argument local type
             pl = op_place(t['args'][0])
             ty = body.local_ty(pl['l']) if pl else ''
@@ -665,9 +816,10 @@ def bounded_access(ctx, facts, cfg):
                 ctx.violation(R, 'out-of-block:%s:+%d' % (intr, off),
                               '%s in %s accesses bytes %d..%d of a %d-byte object (%s): it reaches into the neighbouring block/table entry'
                               % (intr, p, off, off + acc, base_sz, descr), site=t['line'], fn=p, cfg=cfg)
-    floors = {'x86_64': {('ssse3', 'load'): 28, ('ssse3', 'store'): 20, ('avx2', 'load'): 18, ('avx2', 'store'): 10},
-              'i686': {('ssse3', 'load'): 28, ('ssse3', 'store'): 20, ('avx2', 'load'): 18, ('avx2', 'store'): 10},
-              'aarch64': {('neon', 'load'): 28, ('neon', 'store'): 20}}.get(cfg, {})
+    # what any implementation of an engine must contain: a load and a store of the low and of the high half of a block
+    floors = {'x86_64': {('ssse3', 'load'): 2, ('ssse3', 'store'): 2, ('avx2', 'load'): 2, ('avx2', 'store'): 2},
+              'i686': {('ssse3', 'load'): 2, ('ssse3', 'store'): 2, ('avx2', 'load'): 2, ('avx2', 'store'): 2},
+              'aarch64': {('neon', 'load'): 2, ('neon', 'store'): 2}}.get(cfg, {})
     for k, want in floors.items():
         got = counts.get(k, 0)
         if got < want:
